@@ -107,24 +107,16 @@ fn main() {
             "every document x every fault offset k in 0..=len (the source delivers k bytes, then fails permanently) x schedules of the delivered prefix; compared with the fault-free run. Non-trivial = fault offset strictly inside a token or at the very end (after a construct that accepts end of input)".into()
         }
         "C05" => {
+            let mut groups = Vec::new();
             for kind in subjects::KINDS {
                 let subs = subjects::subjects(kind, &lits_for(tier), &flags_for(kind, tier));
                 let inp = gen::inputs(kind, tier);
-                let docs = inp.all();
-                report.count(&format!("{kind}_documents"), docs.len() as u64);
-                let units = generic::c05_units(&subs, &docs);
-                let total = mc_core::par::par_fold(units.len(), mc_core::threads(), Report::new, |acc, i| {
-                    let (si, di) = units[i];
-                    generic::c05_unit(subs[si].as_ref(), &docs[di].bytes, acc);
-                    acc.states += 1;
-                    acc.nontrivial += 1;
-                }, |a, b| a.merge(b));
-                report.merge(total);
-                report.completed.push(format!("{kind}: {} documents x {} subjects x {{one-shot, 1 byte per read with chunk 1}}", docs.len(), subs.len()));
                 sample_docs(&mut report, kind, &inp.sequences);
+                groups.push((kind.to_string(), subs, inp.all()));
             }
+            generic::c05_isolated(&groups, tier.pick(40.0, 1500.0), &mut report);
             report.traces = report.evaluations;
-            "every document of the generated families x every subject x {one-shot, byte-wise}: the run must return a value (no panic incl. overflow / debug assertion in the checked build), within 2 s, with peak requested heap <= 64 x consumed bytes + 128 KiB + 4 chunks (counting allocator, per thread). Non-trivial: every case (each is a distinct input x subject)".into()
+            "every document of the generated families x every subject x {one-shot, byte-wise}, each (subject, document) unit run in an isolated single-threaded worker process: the run must return a value (no panic incl. overflow / debug assertion in the checked build, no abort, no stack overflow, no hang), within 2 s, with peak requested heap <= 64 x consumed bytes + 128 KiB + 4 chunks (counting allocator, per thread). Non-trivial: every case (each is a distinct input x subject)".into()
         }
         "C08" => {
             for kind in subjects::KINDS {
